@@ -114,7 +114,7 @@ class StatsPart:
                     "only_snvs": draw(st.integers(0, 3)) == 0,
                     "chromosomes": draw(st.sampled_from([None, None, None, ["chr1"], ["chr2"], ["chr3"], ["chr1,chr2"], ["chr2", "chr1"],
                                                          ["chr1,chr3"], ["chr3", "chr1"], ["chr2,chr3"], ["chr3,chr2,chr1"]])),
-                    "gtf": draw(st.booleans())}
+                    "gtf": draw(st.booleans()), "indexed": draw(st.integers(0, 2)) == 0}
             return {"model": model, "truth": truth, "opts": opts}
         return case()
 
@@ -122,15 +122,28 @@ class StatsPart:
         model, truth, opts = case["model"], case["truth"], case["opts"]
         d = ctx.tmp()
         inp = vm.write_vcf(model, os.path.join(d, "in.vcf"))
+        if opts.get("indexed"):
+            # bgzip + tabix: with --chromosome the tool then fetches the requested chromosomes directly
+            inp = vm.bgzip_tabix(inp)
+            ctx.label("indexed-input")
         tsv = os.path.join(d, "out.tsv")
         bl = os.path.join(d, "blocks.tsv")
         gtf = os.path.join(d, "out.gtf") if opts["gtf"] else None
         sample = opts["sample"] or model["samples"][0]
         si = model["samples"].index(sample)
         buf = io.StringIO()
-        with contextlib.redirect_stdout(buf):
-            rc = run_stats(inp, sample=opts["sample"], gtf=gtf, tsv=tsv, block_list=bl, only_snvs=opts["only_snvs"],
-                           chromosomes=opts["chromosomes"])
+        declared = [c[0] for c in model["contigs"]]
+        requested = [c for e in (opts["chromosomes"] or []) for c in e.split(",") if c]
+        try:
+            with contextlib.redirect_stdout(buf):
+                rc = run_stats(inp, sample=opts["sample"], gtf=gtf, tsv=tsv, block_list=bl, only_snvs=opts["only_snvs"],
+                               chromosomes=opts["chromosomes"])
+        except Exception as e:
+            # an indexed file is asked for a chromosome it does not declare: the reader's own exception names the contig
+            if opts.get("indexed") and type(e).__name__ == "VcfInvalidChromosome" and any(c not in declared for c in requested):
+                ctx.label("indexed:undeclared-chromosome-rejected")
+                return
+            raise
         if rc:
             ctx.violation("stats:returned-error", "run_stats returned %r" % rc)
             return
@@ -140,6 +153,12 @@ class StatsPart:
         exp, order = expected_stats(model, truth, si, opts["only_snvs"], given)
         rows = parse_tsv(tsv)
         processed = [c for c in order if not given or c in given]
+        if opts.get("indexed") and given:
+            # direct lookup: every requested chromosome is reported, also one that is declared but has no record
+            for c in given:
+                if c not in exp:
+                    exp[c] = {"variants": 0, "het": 0, "het_snv": 0, "unphased": 0, "sets": {}, "last_pos": None, "seq": []}
+            processed = list(dict.fromkeys(given))
         # the tool stops reading once all requested chromosomes were seen
         nt_missing = any(t[si]["alleles"] is None or any(a is None for a in t[si]["alleles"]) for t in truth)
         interleaved = False
@@ -147,7 +166,7 @@ class StatsPart:
         for c in processed:
             if c not in rows:
                 # chromosome present in file but no row: only legal if the loop stopped before reaching it
-                if given and set(given) <= set(order[:order.index(c)]):
+                if given and not opts.get("indexed") and set(given) <= set(order[:order.index(c)]):
                     continue
                 ctx.violation("stats:missing-row", "no TSV row for chromosome %s" % c)
                 continue
